@@ -1,3 +1,98 @@
 import TTModel.Proto
-/-! C10 driver — stub (not built yet): answers `bad-op` to everything. -/
-def main : IO Unit := TT.Proto.mainLoop fun _ => "bad-op"
+import TTModel.C10_Shapes
+/-! C10 driver: shapes are comma separated (`-` = the empty shape), lists of shapes `;` separated
+(`none` = the empty list).
+
+* `longest <shapes>`                       → shape
+* `container <param shapes> <model shapes>` → shape
+* `dist <x> <batch> <eventLen>`            → shape
+* `plan <L> <C> <J>`                       → `<plan> <piece shape>` | `<plan> error:<kind>`
+* `classify <L> <C> <J> <nSample>`         → `<verdict> cut=<n>`
+* `joint <J|auto> <L1>/<C1> <L2>/<C2> …`   → `shape <s> sup <c>.<flat>+…;…` (one group per output entry,
+                                              row-major; entries of component c are numbered row-major) | `error:<kind>`
+-/
+open TT.Proto TT.C10
+
+def parseShape (w : String) : Option Shape :=
+  if w = "-" then some [] else (w.splitOn ",").mapM String.toNat?
+
+def showShape (s : Shape) : String :=
+  if s.isEmpty then "-" else ",".intercalate (s.map toString)
+
+def parseShapes (w : String) : Option (List Shape) :=
+  if w = "none" then some [] else (w.splitOn ";").mapM parseShape
+
+def showPlan : Plan → String
+  | .unsqueezeLast => "unsqueezeLast" | .unsqueeze0 => "unsqueeze0" | .flattenSum n => s!"flattenSum{n}"
+  | .sumLast => "sumLast" | .expand => "expand" | .squeeze0 => "squeeze0" | .keep => "keep"
+
+def showErr : Err → String
+  | .catEmpty => "catEmpty" | .catZeroDim => "catZeroDim" | .catNdim => "catNdim" | .catSize => "catSize"
+  | .expandSize => "expandSize"
+
+def showVerdict : Verdict → String
+  | .perSample => "perSample" | .addToAll => "addToAll" | .mixes => "mixes" | .keepsEvent => "keepsEvent"
+  | .other => "other"
+
+/-- free commutative-monoid-like scalars: which (component, entry) pairs were added -/
+structure Sup where
+  l : List (Nat × Nat)
+instance : Add Sup := ⟨fun a b => ⟨a.l ++ b.l⟩⟩
+instance : Zero Sup := ⟨⟨[]⟩⟩
+
+def flatIndex : Shape → List Nat → Nat
+  | d :: ds, i :: is => i * (ds.foldl (· * ·) 1) + flatIndex ds is
+  | _, _ => 0
+
+def sentinel (c : Nat) (shape : Shape) : Tensor Sup :=
+  ⟨shape, fun i => ⟨[(c, flatIndex shape i)]⟩⟩
+
+def insertSorted (x : Nat × Nat) : List (Nat × Nat) → List (Nat × Nat)
+  | [] => [x]
+  | y :: ys => if x.1 < y.1 ∨ (x.1 = y.1 ∧ x.2 ≤ y.2) then x :: y :: ys else y :: insertSorted x ys
+
+def sortPairs (l : List (Nat × Nat)) : List (Nat × Nat) := l.foldr insertSorted []
+
+def showSup (s : Sup) : String :=
+  "+".intercalate ((sortPairs s.l).map fun p => s!"{p.1}.{p.2}")
+
+def parseComp (w : String) : Option (Shape × Shape) :=
+  match w.splitOn "/" with
+  | [l, c] => do pure (← parseShape l, ← parseShape c)
+  | _ => none
+
+def handle (line : String) : String :=
+  match splitWords line with
+  | ["longest", ss] => match parseShapes ss with
+    | some l => showShape (longest l)
+    | none => "bad-op"
+  | ["container", ps, ms] => match parseShapes ps, parseShapes ms with
+    | some p, some m => showShape (containerSampleShape p m)
+    | _, _ => "bad-op"
+  | ["dist", x, b, e] => match parseShape x, parseShape b, e.toNat? with
+    | some x, some b, some e => showShape (distSampleShape x b e)
+    | _, _, _ => "bad-op"
+  | ["plan", l, c, j] => match parseShape l, parseShape c, parseShape j with
+    | some l, some c, some j =>
+      let p := choosePlan l c j
+      match applyPlan p j (sentinel 0 l) with
+      | .ok t => s!"{showPlan p} {showShape t.shape}"
+      | .error e => s!"{showPlan p} error:{showErr e}"
+    | _, _, _ => "bad-op"
+  | ["classify", l, c, j, n] => match parseShape l, parseShape c, parseShape j, n.toNat? with
+    | some l, some c, some j, some n => s!"{showVerdict (classify l c j n)} cut={cut l c}"
+    | _, _, _, _ => "bad-op"
+  | "joint" :: j :: comps =>
+    match comps.mapM parseComp with
+    | none => "bad-op"
+    | some cs =>
+      let comps : List (Component Sup) := (List.range cs.length).zip cs |>.map fun (i, lc) => ⟨sentinel i lc.1, lc.2⟩
+      let r := if j = "auto" then some (joint comps) else (parseShape j).map fun j => jointWith j comps
+      match r with
+      | none => "bad-op"
+      | some (.error e) => s!"error:{showErr e}"
+      | some (.ok t) =>
+        s!"shape {showShape t.shape} sup {";".intercalate ((indices t.shape).map fun s => showSup (t.get s))}"
+  | _ => "bad-op"
+
+def main : IO Unit := mainLoop handle
